@@ -456,14 +456,28 @@ def size_class(n):
 
 # ----------------------------------------------------------------------------------------------- scenarios
 BIG = 10 ** 6
-SOCK_NOISE = ["t", faults.EAGAIN, faults.ETIMEDOUT]
+SOCK_NOISE = ["t", faults.EAGAIN, faults.ETIMEDOUT]       # everything SocketStream.read retries on
+SOCK_TRANSIENT = ["t", faults.EAGAIN]                     # what the STATEMENT calls transient (judged for completeness)
+# errnos a dead or broken transport can report beyond reset / broken pipe (each must be fatal, none retried)
+import errno as _errno
+OTHER_ERRNOS = ["e%d" % e for e in (_errno.EIO, _errno.ENOMEM, _errno.EINVAL, _errno.ECONNABORTED, _errno.ENOBUFS,
+                                      _errno.ENOTCONN, _errno.EHOSTUNREACH, _errno.ENETDOWN, _errno.ENETRESET,
+                                      _errno.ECONNREFUSED, _errno.ESHUTDOWN, _errno.EINPROGRESS, _errno.EALREADY,
+                                      _errno.EINTR, _errno.EBADF, 2, 1)]
+
+
+def sock_noise(r):
+    """3 scripts in 4 use only the statement's transient events (and are judged for completeness by the oracle)"""
+    return SOCK_TRANSIENT if r.below(4) else SOCK_NOISE
+
+
 
 
 def family_script(r, family, total, kind, side):
     """a failure-free script of the named family for `total` bytes; side 'c' (receive) or 'a' (send).
     (`SocketStream.write` re-slices the remaining data after every partial send, so one-byte sends of a
     large packet cost quadratic time in the real code: large sends use pieces of at least 977 bytes.)"""
-    noise = SOCK_NOISE if (kind == "sock" and side == "c") else []
+    noise = sock_noise(r) if (kind == "sock" and side == "c") else []
     small = 1 if (side == "c" or total < 20000) else 977
     if family == "whole":
         return ["%s%d*%d" % (side, BIG, total + 3)]
@@ -573,12 +587,13 @@ def gen_fault_cases(r, ctx):
                 base = dict(op="xfer", group="S4-fault", cs=cs, cr=r.chance(1, 2), packets=specs, expect="safe",
                             offset=off, stream_len=L)
                 ok_s = ["a%d*%d" % (r.choice([1, 9, BIG]), L + 3)]
-                ok_r = faults.random_benign(r, L, "c", pieces=6, noise=SOCK_NOISE if kind == "sock" else [])
+                ok_r = faults.random_benign(r, L, "c", pieces=6, noise=sock_noise(r) if kind == "sock" else [])
                 # receiver-side faults after exactly `off` bytes
                 for name, script in (
                         ("recv-reset", faults.at_offset(off, faults.RESET, tail=["c9*9"])),
                         ("recv-eof", faults.at_offset(off, "z", tail=["c9*9"])),
                         ("recv-epipe", faults.at_offset(off, faults.EPIPE)),
+                        ("recv-other-errno", faults.at_offset(off, r.choice(OTHER_ERRNOS), tail=["c9*9"])),
                         ("recv-timeout", faults.at_offset(off, "t", tail=faults.dribble(L, 3))),
                         ("recv-eagain", faults.at_offset(off, faults.EAGAIN, tail=faults.dribble(L, 7))),
                         ("recv-starved", ["c1*%d" % off] if off else [])):
@@ -589,6 +604,7 @@ def gen_fault_cases(r, ctx):
                         ("send-reset", faults.at_offset(off, faults.RESET, "a", tail=["a9*9"])),
                         ("send-timeout", faults.at_offset(off, "t", "a", tail=["a9*9"])),
                         ("send-eagain", faults.at_offset(off, faults.EAGAIN, "a")),
+                        ("send-other-errno", faults.at_offset(off, r.choice(OTHER_ERRNOS), "a", tail=["a9*9"])),
                         ("send-starved", ["a1*%d" % off] if off else [])):
                     yield dict(base, fault=name, kind_s=kind, kind_r=r.choice(["sock", "pipe"]), max_s=mx, max_r=None,
                                sscript=script, rscript=ok_r)
@@ -597,8 +613,8 @@ def gen_fault_cases(r, ctx):
 def gen_stream_cases(r, ctx):
     """stream.read / stream.write call sequences, continuing after EOFError (closed-stream behaviour)"""
     evs_r = ["c1", "c2", "c3", "c7", "c100", "c0", "t", "t", faults.EAGAIN, faults.ETIMEDOUT, faults.RESET, "z",
-             faults.EBADF, faults.EINTR, "c64000", "c64001"]
-    evs_s = ["a1", "a2", "a3", "a7", "a100", "a0", "a64000", "t", faults.EAGAIN, faults.RESET, faults.EPIPE]
+             faults.EBADF, faults.EINTR, "c64000", "c64001"] + OTHER_ERRNOS[:12:3]
+    evs_s = ["a1", "a2", "a3", "a7", "a100", "a0", "a64000", "t", faults.EAGAIN, faults.RESET, faults.EPIPE] + OTHER_ERRNOS[1:12:4]
     for i in range(ctx.budget(400, 20000)):
         kind = r.choice(["sock", "pipe"])
         mx = r.choice([None, None, 1, 2, 5, 16])
@@ -654,7 +670,7 @@ def gen_rawwire_cases(r, ctx):
             wire += C.FRAME_HEADER.pack(length, flag) + payload + trail
         kind = r.choice(["sock", "pipe"])
         yield dict(op="rawrecv", group="S6-rawwire", kind=kind, max=r.choice([None, 3, 16]), wire=wire.hex(),
-                   script=faults.random_benign(r, len(wire), "c", pieces=5, noise=SOCK_NOISE if kind == "sock" else []),
+                   script=faults.random_benign(r, len(wire), "c", pieces=5, noise=sock_noise(r) if kind == "sock" else []),
                    ncalls=n + 1, table=[p.hex() for p in table], muts=muts)
 
 
@@ -663,8 +679,8 @@ def gen_duplex_cases(r, ctx):
     healthy and failing scripts, failing poll / fileno, the descriptor's own close() raising"""
     channel, _S = mods()
     t = channel.Channel.COMPRESSION_THRESHOLD
-    ev_r = ["c1", "c2", "c3", "c7", "c100", "c64000", "c0", "t", faults.EAGAIN, faults.RESET, "z", faults.EPIPE]
-    ev_s = ["a1", "a2", "a5", "a100", "a64000", "a0", "t", faults.EAGAIN, faults.RESET, faults.EPIPE]
+    ev_r = ["c1", "c2", "c3", "c7", "c100", "c64000", "c0", "t", faults.EAGAIN, faults.RESET, "z", faults.EPIPE] + OTHER_ERRNOS[2:12:4]
+    ev_s = ["a1", "a2", "a5", "a100", "a64000", "a0", "t", faults.EAGAIN, faults.RESET, faults.EPIPE] + OTHER_ERRNOS[3:12:4]
     for i in range(ctx.budget(700, 30000)):
         pipe = r.chance(1, 2)
         kind = "pipe" if pipe else "sock"
@@ -677,7 +693,7 @@ def gen_duplex_cases(r, ctx):
             wire = wire[:r.below(len(wire) + 1)]
         L = len(wire)
         if mode in ("healthy", "pollfault"):
-            rscript = faults.random_benign(r, L, "c", pieces=8, noise=SOCK_NOISE if not pipe else [])
+            rscript = faults.random_benign(r, L, "c", pieces=8, noise=sock_noise(r) if not pipe else [])
             sscript = ["a%d" % r.choice([1, 3, 7, 100, 64000]) for _ in range(r.below(6))] + ["a7*9000"]
         else:
             rscript = [r.choice(ev_r) for _ in range(r.below(14))]
@@ -708,29 +724,42 @@ def gen_duplex_cases(r, ctx):
                    sscript=sscript, pscript=pscript, wire=wire.hex(), incoming=inc, peer_c=peer_c, ops=ops, outgoing=outs)
 
 
+KERNEL_FLAVOURS = [("plain", "sock"), ("plain", "pipe"), ("cut", "sock"), ("cut", "pipe"), ("nonblocking", "sock"),
+                   ("nonblocking", "tcp"), ("timeout-reader", "sock"), ("reset", "sock"), ("reader-dies", "sock"),
+                   ("reader-dies", "pipe"), ("plain", "tcp"), ("cut", "tcp"), ("timeout-reader", "tcp"),
+                   ("reader-dies", "tcp")]
+
+
 def gen_kernel_cases(r, ctx):
-    """transfers over a real socketpair / real pipes (wire_kernel.py)"""
+    """transfers over a real socketpair / loopback TCP connection / real pipes (wire_kernel.py); the flavours come in
+    a fixed order, so every run has every one of them"""
     channel, S = mods()
     t = channel.Channel.COMPRESSION_THRESHOLD
     m = S.SocketStream.MAX_IO_CHUNK
-    for i in range(ctx.budget(10, 400)):
-        kind = ("sock", "pipe")[i % 2]
-        flavour = ["plain", "cut", "nonblocking", "reset", "reader-dies", "plain"][(i // 2) % 6]
-        n = r.range(1, 5)
+    for i in range(ctx.budget(len(KERNEL_FLAVOURS), 420)):
+        flavour, kind = KERNEL_FLAVOURS[i % len(KERNEL_FLAVOURS)]
+        n = r.range(2, 5)
         pool = [0, 1, 7, 300, t - 1, t, t + 1, 9000, m - 7, m - 6, m - 5, m + 1]
         specs = [[r.choice(pool) if r.chance(4, 5) else 150000, r.choice("cr"), r.below(999)] for _ in range(n)]
         case = dict(op="kernel", group="S8-kernel:" + flavour, kind=kind, seed=r.below(10 ** 9), packets=specs,
                     cs=r.chance(1, 2), cr=r.chance(1, 2), bufsize=r.choice([2048, 4096, 16384, 212992]),
-                    cut=None, reader_stops_after=None, nonblocking=False, timeouts=[0, 1], reset=False)
+                    cut=None, reader_stops_after=None, nonblocking=False, timeouts=[0, 1], reset=False, gated=False,
+                    reader_timeout=None, min_send=1)
         if flavour == "cut":
             case["cut"] = r.range(0, 40)
-        elif flavour == "nonblocking" and kind == "sock":
-            case["nonblocking"], case["timeouts"] = True, [1, 6]
-        elif flavour == "reset" and kind == "sock":
+        elif flavour == "nonblocking":
+            # the writer sends nothing until the kernel has answered the reader EAGAIN once more: real would-blocks
+            # before the first byte and between the pieces of every frame, deterministically
+            case.update(nonblocking=True, timeouts=[1, 6], gated=True, min_send=977)
+        elif flavour == "timeout-reader":
+            case.update(reader_timeout=0.004, gated=True, min_send=2000)
+        elif flavour == "reset":
             case["reset"] = True
         elif flavour == "reader-dies":
             case["packets"] = [[0, "r", 1]] + [[r.choice([70000, 150000, 250000]), "r", j] for j in range(4)]
             case["reader_stops_after"] = 1
+        if kind == "tcp" and case["gated"]:
+            case["bufsize"] = 65536        # (tiny TCP windows plus a gated writer only add delayed-ACK stalls)
         yield case
 
 
@@ -844,18 +873,46 @@ class Batch:
                                             line=line[:300]))
 
 
+def same_but_left(want):
+    """send results agree in everything but the number of script events left"""
+    w = want.split(" ")
+
+    def post(got):
+        g = got.split(" ")
+        if len(g) != 5 or g[:3] + g[4:] != w[:3] + w[4:]:
+            return want[:300]
+        return None
+    return post
+
+
+def same_frame(ws, corr):
+    """the write() calls of one send(): what is claimed (and compared) is their CONCATENATION = the frame; whether
+    the code cuts it into the same calls as the model's sendWrites is recorded as information only"""
+    joined = b"".join(ws).hex()
+
+    def post(got):
+        if not got.startswith("ok [ "):
+            return "model: %s; implementation wrote %d bytes" % (got[:60], len(joined) // 2)
+        planned = [t[1:] for t in got[5:-1].split(" ") if t]
+        if "".join(planned) != joined:
+            return "write() calls concatenate to x%s..., the model's frame is x%s..." % (joined[:80], "".join(planned)[:80])
+        corr.count("info:write-call-list-%s-the-model's" % ("equals" if planned == [w.hex() for w in ws] else "DIFFERS-from"))
+        return None
+    return post
+
+
 def check_partial_writes(snd, planned_text_by_index):
-    """returns a function checking, once the model's planned writes of the failing packet are known, that the
-    write() calls the real `send` made for it are a non-empty proper-or-full prefix of the planned ones"""
+    """once the model's planned writes of the failing packet are known: the bytes the real `send` tried to write
+    for it are a non-empty prefix of the frame (how they were cut into write() calls is not compared)"""
     def post(got):
         if not got.startswith("ok [ "):
             return None if snd["end"] not in ("EOFError", "starved") else "model plans no writes: %s" % got[:80]
-        planned = [t for t in got[5:-1].split(" ") if t]
-        real = ["x" + w.hex() for w in snd["writes"][snd["marks"][-1]:]]
+        frame = "".join(t[1:] for t in got[5:-1].split(" ") if t)
+        real = b"".join(snd["writes"][snd["marks"][-1]:]).hex()
         if snd["end"] in ("EOFError", "starved"):
-            if not real or real != planned[:len(real)]:
-                return "write() calls of the failing send %s are not a prefix of the planned %s" % (
-                    [len(w) // 2 for w in real], [len(w) // 2 for w in planned])
+            if not snd["writes"][snd["marks"][-1]:] or not frame.startswith(real):
+                return "the bytes the failing send tried to write (%d) are not a prefix of the frame (%d bytes)" % (
+                    len(real) // 2, len(frame) // 2)
         return None
     return post
 
@@ -865,18 +922,25 @@ def feed_case(case, batch, corr, seen_writes):
     if op == "xfer":
         packets, sscript, rscript, snd, rcv, ncalls = impl_xfer(case)
         send_line, recv_line, write_lines = xfer_lines(case, packets, sscript, rscript, snd, ncalls)
-        batch.add(send_line, send_text(snd), case, "send")
+        # the number of send()/os.write calls a send() makes is not part of the claim: the events left of the send
+        # script are reported but not compared
+        batch.add(send_line, send_text(snd), case, "send", post=same_but_left(send_text(snd)))
         batch.add(recv_line, recv_text(rcv), case, "recv")
         for i, wl in enumerate(write_lines):
             if i < snd["n"]:
-                real = writes_text(snd["writes"][snd["marks"][i]:snd["marks"][i + 1]])
-                key = (wl, real)
+                ws = snd["writes"][snd["marks"][i]:snd["marks"][i + 1]]
+                key = (wl, b"".join(ws))
                 if key not in seen_writes:
                     seen_writes.add(key)
-                    batch.add(wl, real, case, "writes")
+                    batch.add(wl, writes_text(ws), case, "writes", post=same_frame(ws, corr))
                 corr.count("impl:writes-per-send:%d" % (snd["marks"][i + 1] - snd["marks"][i]))
             elif i == snd["n"] and snd["end"] != "done":
                 batch.add(wl, "", case, "writes-partial", post=check_partial_writes(snd, None))
+        msg = xfer_property(case, packets, sscript, rscript, snd, rcv, ncalls)
+        if msg:
+            corr.disagreements.append(dict(op="xfer-oracle", case=compact(case), impl=msg, model="(direct oracle)"))
+        corr.count("oracle:xfer:" + ("judged-for-completeness" if xfer_is_healthy(case, packets, sscript, rscript, ncalls)
+                                     else "judged-for-safety-only"))
         corr.count("impl:send:" + snd["end"])
         corr.count("impl:recv:" + rcv["end"])
         corr.count("group:" + case["group"] + (":" + case["fault"] if "fault" in case else ""))
@@ -897,6 +961,9 @@ def feed_case(case, batch, corr, seen_writes):
                                                Script(case["script"]).text(), case["wire"],
                                                " ".join(str(n) for n in case["counts"]))
         batch.add(line, want, case, "reads")
+        msg = oracle_reads(case)
+        if msg:
+            corr.disagreements.append(dict(op="reads-oracle", case=compact(case), impl=msg, model="(direct oracle)"))
         for x in res["results"]:
             corr.count("impl:read:" + x.split(":")[0])
         corr.signatures.add(("reads", case["kind"], case["max"], tuple(x.split(":")[0] for x in res["results"]), res["closed"]))
@@ -907,6 +974,9 @@ def feed_case(case, batch, corr, seen_writes):
         line = "wire swrites %d %s %s" % (max_of(case["kind"], case["max"]), Script(case["script"]).text(),
                                           " ".join("x" + d for d in case["datas"]))
         batch.add(line, want, case, "swrites")
+        msg = oracle_swrites(case)
+        if msg:
+            corr.disagreements.append(dict(op="swrites-oracle", case=compact(case), impl=msg, model="(direct oracle)"))
         for x in res["results"]:
             corr.count("impl:write:" + x)
         corr.signatures.add(("swrites", case["kind"], case["max"], tuple(res["results"]), res["closed"]))
@@ -973,7 +1043,14 @@ def feed_case(case, batch, corr, seen_writes):
         if msg:
             corr.disagreements.append(dict(op="kernel-oracle", case=compact(case), impl=msg, model="(direct oracle)"))
         cs = case["cs"]
-        mx = max_of(case["kind"], None)
+        skind = "pipe" if case["kind"] == "pipe" else "sock"
+        mx = max_of(skind, None)
+        if case.get("nonblocking") and res.eagain < 1:
+            corr.disagreements.append(dict(op="kernel-setup", case=compact(case), model="(harness)",
+                                           impl="the non-blocking reader met no EAGAIN from the kernel: the case tested nothing"))
+        if case.get("reader_timeout") and res.kernel_timeouts < 1:
+            corr.disagreements.append(dict(op="kernel-setup", case=compact(case), model="(harness)",
+                                           impl="the reader with a socket timeout met no timeout from the kernel: the case tested nothing"))
         toks = [pkt_token(p, cs) for p in packets]
         want_s = "%d %s %s 0 x%s" % (res.wn, res.wend, tf(res.wclosed), res.sent.hex())
         batch.add(("wire send %s %d %s %s" % (tf(cs), mx, Script(res.strace).text(), " ".join(toks))).rstrip(),
@@ -985,7 +1062,7 @@ def feed_case(case, batch, corr, seen_writes):
         want_r = "%s %s 0 %d [ %s]" % (res.rend, "F" if stops else tf(res.rclosed), len(wire) - consumed,
                                        "".join("x%s " % g.hex() for g in res.got))
         ztoks = [tk for tk in toks if tk[0] == "Z"]
-        batch.add(("wire recv %s %d %d %s x%s %s" % (tf(case["kind"] == "sock"), mx, ncalls, Script(res.rtrace).text(),
+        batch.add(("wire recv %s %d %d %s x%s %s" % (tf(skind == "sock"), mx, ncalls, Script(res.rtrace).text(),
                                                      wire.hex(), " ".join(ztoks))).rstrip(), want_r, case, "kernel-recv")
         corr.count("group:" + case["group"])
         corr.count("kernel:%s:reader:%s" % (case["kind"], res.rend))
@@ -994,6 +1071,10 @@ def feed_case(case, batch, corr, seen_writes):
         corr.count("kernel:recv-calls", sum(n for _e, n in res.rtrace))
         corr.count("kernel:send-calls", sum(n for _e, n in res.strace))
         corr.count("kernel:EAGAIN-from-the-kernel", res.eagain)
+        corr.count("kernel:socket.timeout-from-the-kernel", res.kernel_timeouts)
+        corr.count("kernel:transport:" + res.transport)
+        if case.get("nonblocking"):
+            corr.count("kernel:nonblocking-cases-that-met-a-real-EAGAIN", 1 if res.eagain else 0)
         corr.count("kernel:partial-recv", sum(n for e, n in res.rtrace if e[0] == "c"))
         corr.signatures.add(("kernel", case["group"], case["kind"], tuple(size_class(len(p)) for p in packets),
                              res.rend, res.wend, len(res.got)))
@@ -1064,7 +1145,9 @@ def run_kernel(case):
         tail = frame[:min(case["cut"], len(frame) - 1)]
     res = wire_kernel.run_pair(case["kind"], Rng(case["seed"]), packets, case["cs"], case["cr"], tail=tail,
                                reader_stops_after=case["reader_stops_after"], nonblocking=case["nonblocking"],
-                               timeouts=tuple(case["timeouts"]), bufsize=case["bufsize"], reset=case["reset"])
+                               timeouts=tuple(case["timeouts"]), bufsize=case["bufsize"], reset=case["reset"],
+                               gated=case.get("gated", False), reader_timeout=case.get("reader_timeout"),
+                               min_send=case.get("min_send", 1))
     return packets, tail, res
 
 
@@ -1086,8 +1169,6 @@ def kernel_property(case, packets, res):
         return "only %d of %d packets arrived over a healthy kernel transport (%s)" % (len(res.got), len(packets), res.rend)
     if res.rend != "EOFError" or not res.rclosed:
         return "after the writer went away the reader got %s, closed=%s" % (res.rend, res.rclosed)
-    if res.polled is not True:
-        return "poll() before the read that meets the end of the transport answered %r" % (res.polled,)
     return None
 
 
@@ -1184,9 +1265,16 @@ def script_is_benign(items, side, sock, need):
     return data >= need
 
 
-def oracle_xfer(case):
-    """None if the property holds on the real code for this case, else a description"""
-    packets, sscript, rscript, snd, rcv, ncalls = impl_xfer(case)
+def xfer_is_healthy(case, packets, sscript, rscript, ncalls):
+    """the statement's premise for 'received exactly': no failure event on either transport (data events and, on a
+    socket, timeouts / EAGAIN only), enough data events, one recv() per packet"""
+    need = wire_bound(packets)
+    return (script_is_benign(sscript, "a", True, need) and script_is_benign(rscript, "c", case["kind_r"] == "sock", need)
+            and ncalls >= len(packets))
+
+
+def xfer_property(case, packets, sscript, rscript, snd, rcv, ncalls):
+    """the property on one transfer of the real code (no model); None if it holds"""
     got = rcv["got"]
     if got != packets[:len(got)]:
         k = next((i for i in range(len(got)) if i >= len(packets) or got[i] != packets[i]), len(got))
@@ -1200,14 +1288,18 @@ def oracle_xfer(case):
         return "send raised EOFError but the stream is not closed"
     if rcv["end"] == "EOFError" and not rcv["closed"].startswith("T"):
         return "recv raised EOFError but the stream is not closed"
-    need = wire_bound(packets)
-    if script_is_benign(sscript, "a", True, need) and script_is_benign(rscript, "c", case["kind_r"] == "sock", need) \
-            and ncalls >= len(packets):
+    if xfer_is_healthy(case, packets, sscript, rscript, ncalls):
         if snd["end"] != "done":
             return "healthy sending transport, but send ended with %s" % snd["end"]
         if len(got) < len(packets):
             return "healthy transports, but only %d of %d packets were received (%s)" % (len(got), len(packets), rcv["end"])
     return None
+
+
+def oracle_xfer(case):
+    """None if the property holds on the real code for this case, else a description"""
+    packets, sscript, rscript, snd, rcv, ncalls = impl_xfer(case)
+    return xfer_property(case, packets, sscript, rscript, snd, rcv, ncalls)
 
 
 def oracle_reads(case):
